@@ -26,7 +26,7 @@ def to_rows(vals):
     for om in range(512):
         for kind in (0, 1, 2):
             rows.append(['gd', kind, 0, om]); rows.append(['gd', kind, 1, om]); rows.append(['gi', kind, 0, om])
-        rows.append(['rd', om]); rows.append(['ri', om]); rows.append(['rl', om])
+        rows.append(['rd', om]); rows.append(['ri', om]); rows.append(['rl', om]); rows.append(['rdp', om]); rows.append(['rlp', om])
     rows.append(['uninit'])
     return rows
 
